@@ -221,6 +221,10 @@ func c04Round(c *core.Ctx, round int) {
 	b["ordered"] = yaml.MapSlice{{Key: "a", Value: 1}, {Key: "b", Value: 2}}
 	b["tm"] = time.Date(2020, 2, 3, 4, 5, 6, 0, time.UTC)
 	b["nothing"] = nil
+	// struct types with liquid tags, methods with value and pointer receivers: looked up through per-type tables
+	b["ta"], b["tb"] = gen.TaggedA{Name: "lamp", Price: 5, Sku: "SKU-1"}, &gen.TaggedB{Email: "ada@example.org", Full: "Ada", Sku: 7}
+	b["msv"], b["msp"] = gen.MethodStruct{Title: "Hello World"}, &gen.MethodStruct{Title: "Other Title"}
+	b["tas"] = []any{gen.TaggedA{Name: "a", Price: 1}, &gen.TaggedB{Email: "b@x", Full: "B"}, gen.TaggedA{Name: "c", Price: 3}, &gen.TaggedB{Email: "d@x", Full: "D"}}
 	// date strings in many layouts: parsing them consults process-wide tables from every goroutine
 	tm0 := time.Date(2021, 3, 4, 5, 6, 7, 0, time.UTC)
 	var dstrs []any
@@ -239,6 +243,7 @@ func c04Round(c *core.Ctx, round int) {
 	}
 	freshWrapped()
 	srcs = append(srcs, "{{ wdrop | join: ',' }}{% for x in wdrop %}{{ x }}{% endfor %}{{ wdrop.first }}{{ wdrop.size }}", "{{ wdrop2.k }}{{ wdrop2.l | join: '+' }}{{ wdrop3 | upcase }}{{ wdrop3 }}{% if wdrop contains 2 %}c{% endif %}{% for kv in wdrop2 %}{{ kv[0] }}{% endfor %}")
+	srcs = append(srcs, "{{ ta.label }}:{{ ta.cost }}:{{ ta.Sku }}", "{{ tb.label }} <{{ tb.cost }}> {{ tb.Sku }}", "{% for x in tas %}{{ x.label }}/{{ x.cost }};{% endfor %}", "{{ msv.Title }}|{{ msv.Upper }}|{{ msv.Slug }}", "{{ msp.Upper }}|{{ msp.Slug }}|{{ msp.Title }}")
 	srcs = append(srcs, "{% for d in dstrs %}{{ d | date: '%Y-%m-%d %H:%M' }};{% endfor %}", "{{ dlast | date: '%Y %j' }}{{ dfirst | date: '%H' }}{{ dstrs[7] | date: '%d' }}{{ dstrs[3] | date: '%m' }}", "{% for d in dstrs reversed %}{{ d | date: '%y' }}{% endfor %}")
 	srcs = append(srcs, "{{ ydrop | join: ',' }}{% for x in ydrop %}{{ x }}{% endfor %}{{ ydrop.first }}", "{% for k in keyed %}{{ k }}{% endfor %}{{ ordered.a }}{% for kv in ordered %}{{ kv[1] }}{% endfor %}")
 
